@@ -352,6 +352,10 @@ package frugal
 //@   requires len(frame) >= 5
 //@   requires hsum(headers) + len(frame) <= 2147483000                   // assumption: less than 2 GiB in total
 //@   ensures err == nil ==> result != nil && len(result) >= 9 && u32be(result, 0) == len(result) - 4
+//@   ensures err == nil ==> ncalls("lib.v0ProtocolMarshaler.marshalHeaders") == 1
+//@   ensures err == nil ==> len(result) == 4 + len(callret("lib.v0ProtocolMarshaler.marshalHeaders", 0, 0)) + (len(frame) - 9 - u32be(frame, 5))
+//@   ensures err == nil ==> forall(k, 0, len(callret("lib.v0ProtocolMarshaler.marshalHeaders", 0, 0)), result[4 + k] == callret("lib.v0ProtocolMarshaler.marshalHeaders", 0, 0)[k])
+//@   ensures err == nil ==> forall(k, 0, len(frame) - 9 - u32be(frame, 5), result[len(result) - (len(frame) - 9 - u32be(frame, 5)) + k] == frame[9 + u32be(frame, 5) + k])
 //@   modifies alloc
 //@   loop 0 invariant existing != nil && fresh(existing) && headers == headers0 && frame == frame0
 //@   loop 0 invariant dom(headers) == loopentry(dom(headers)) && vals(headers) == loopentry(vals(headers))
